@@ -124,6 +124,22 @@ CHECKS["C20"] = {
     "note": "plugin loading/ordering (load_plugins) and resource providers in Deep.start are not yet under contract; "
             "plugins are assumed not to mutate agent objects.",
 }
+CHECKS["C08"] = {
+    "text": "Every conversion helper (variable id, variable, frame, watch, tracepoint, variable table, attribute value, "
+            "attribute list, resource) is proved to build a message whose every field equals the corresponding source "
+            "field (text: unchanged when encodable, otherwise an encodable escape; lists and the table element by element "
+            "and key by key, by loop invariant / for-each lifting), to fail only when the source lies outside the "
+            "collector's shapes, and convert_snapshot is proved never to discard (return None for) a snapshot of those "
+            "shapes and to carry every field; GRPCService.metadata is proved to return what the configured provider "
+            "supplies (built once, then reused) and BasicAuthProvider.provide the documented pair; the send and poll call "
+            "sites pass that metadata (C09 / C12 contracts).",
+    "note": "protobuf constructors are trusted record constructors with the installed descriptors' type/range/UTF-8 checks; "
+            "serialisation itself (bytes round trip) is exercised only by the replay driver; the shapes of collected "
+            "snapshots (types, ranges, a watch has a result or an error) are preconditions cross-referenced to the "
+            "C02/C06/C18 contracts, not re-proved here; dict-valued and nested-sequence attribute values are outside the "
+            "contract domain (the store cannot hold them); lone-surrogate text reaches the wire escaped, not unchanged "
+            "(known finding).",
+}
 CHECKS["C09"] = {
     "text": "push_snapshot is proved to do exactly one submission of the push task with the snapshot and nothing else "
             "on the calling thread; submit_task refuses visibly when closed and otherwise submits exactly once and tracks "
